@@ -168,6 +168,9 @@ pub struct Alphabet {
     pub clone: bool,
     pub raw_entry: bool,
     pub rustc_entry: bool,
+    /// operations whose *reference result* depends on the iteration order (which element an early-dropped
+    /// extract_if yields first); left out where results are compared across back-ends (C18)
+    pub order_dependent: bool,
 }
 impl Alphabet {
     pub fn full() -> Self {
@@ -189,6 +192,7 @@ impl Alphabet {
             clone: true,
             raw_entry: false,
             rustc_entry: false,
+            order_dependent: true,
         }
     }
     /// insert / remove / clear / reserve / shrink (the state-changing core)
@@ -211,6 +215,7 @@ impl Alphabet {
             clone: false,
             raw_entry: false,
             rustc_entry: false,
+            order_dependent: true,
         }
     }
     /// the operations that can trigger a resize or an in-place rehash (fault enumeration on large spaces)
@@ -242,6 +247,7 @@ impl Alphabet {
             clone: false,
             raw_entry: false,
             rustc_entry: false,
+            order_dependent: true,
         }
     }
 }
@@ -1417,7 +1423,9 @@ impl<K: KeyT, V: ValT> Harness for MapHarness<K, V> {
             v.push(MapOp::DrainForEach);
             v.push(MapOp::DrainDropEarly);
             v.push(MapOp::IntoIterDropEarly);
-            v.push(MapOp::ExtractIfDropEarly);
+            if a.order_dependent {
+                v.push(MapOp::ExtractIfDropEarly);
+            }
             v.push(MapOp::ExtractIfEvenCount);
             v.push(MapOp::CloneDrop);
             for &t in TARGETS {
